@@ -131,16 +131,21 @@ def pick {β} (l : Option (List (Option β))) (i : Nat) : Res (Option β) :=
     | some v => .ok v
     | none => .error (.other "IndexError")
 
-def axesLoop (names : List String) (ls : AxisLists) (roiMin roiMax : Option (List (Option κ))) :
+/-- `Axis(name=axis_names[i], type=axis_types[i] if axis_types is not None else None, …)` -/
+def mkAxis (ls : AxisLists) (roiMin roiMax : Option (List (Option κ))) (i : Nat) (n : String) : Res (Axis κ) :=
+  pick ls.types i >>= fun ty => pick ls.units i >>= fun un => pick ls.scales i >>= fun sc =>
+  pick ls.scaledUnits i >>= fun su => pick ls.offset i >>= fun off =>
+  pick roiMin i >>= fun lo => pick roiMax i >>= fun hi =>
+  if axisValid ({ name := n, type := ty, unit := un, min := lo, max := hi, scale := sc, scaledUnit := su,
+                  offset := off } : Axis κ)
+  then .ok { name := n, type := ty, unit := un, min := lo, max := hi, scale := sc, scaledUnit := su, offset := off }
+  else .error .valueError
+
+def axesLoop (ls : AxisLists) (roiMin roiMax : Option (List (Option κ))) :
     Nat → List String → Res (List (Axis κ))
   | _, [] => .ok []
-  | i, n :: t => do
-    let a : Axis κ := { name := n, type := ← pick ls.types i, unit := ← pick ls.units i,
-                        scale := ← pick ls.scales i, scaledUnit := ← pick ls.scaledUnits i,
-                        offset := ← pick ls.offset i, min := ← pick roiMin i, max := ← pick roiMax i }
-    if !axisValid a then .error .valueError
-    let rest ← axesLoop names ls roiMin roiMax (i + 1) t
-    pure (a :: rest)
+  | i, n :: t =>
+    mkAxis ls roiMin roiMax i n >>= fun a => axesLoop ls roiMin roiMax (i + 1) t >>= fun rest => .ok (a :: rest)
 
 def axesFromLists (ls : AxisLists) (roiMin roiMax : Option (List (Option κ))) : Res (List (Axis κ)) :=
   match ls.names with
@@ -151,15 +156,14 @@ def axesFromLists (ls : AxisLists) (roiMin roiMax : Option (List (Option κ))) :
     else if !(lenOk ls.scales names.length) then .error .valueError
     else if !(lenOk ls.scaledUnits names.length) then .error .valueError
     else if !(lenOk ls.offset names.length) then .error .valueError
-    else axesLoop names ls roiMin roiMax 0 names
+    else axesLoop ls roiMin roiMax 0 names
 
 /-- `metadata.axes = axes` under `validate_assignment` -/
 def assignAxes (md : Meta κ) (axes : Option (List (Axis κ))) : Res (Meta κ) :=
   if axesAssignable md.hintNames axes then .ok { md with axes := axes } else .error .valueError
 
-def updateMetadataAxes (md : Meta κ) (ls : AxisLists) : Res (Meta κ) := do
-  let axes ← axesFromLists ls none none
-  assignAxes md (some axes)
+def updateMetadataAxes (md : Meta κ) (ls : AxisLists) : Res (Meta κ) :=
+  axesFromLists ls none none >>= fun axes => assignAxes md (some axes)
 
 /-- `create_or_update_metadata`; `version` is `GEFF_VERSION` -/
 def createOrUpdateMetadata (version : String) (md : Option (Meta κ)) (isDirected : Bool)
@@ -338,12 +342,16 @@ def writeLoop : List (String × PropData κ) → Res (List PropMeta × List (Sto
     let (pms, sts, ps) ← writeLoop t
     pure (pm :: pms, storedOf name p' :: sts, (name, p') :: ps)
 
+/-- the loop over `props_unsquish.items()` -/
+def unsquishAll (props : List (String × PropData κ)) (unsquish : Option (List (String × List String))) :
+    Res (List (String × PropData κ)) :=
+  match unsquish with
+  | none => .ok props
+  | some u => u.foldlM (fun acc nr => unsquishOne acc nr.1 nr.2) props
+
 def writePropsArrays (props : List (String × PropData κ)) (unsquish : Option (List (String × List String))) :
-    Res (List PropMeta × List (Stored κ) × List (String × PropData κ)) := do
-  let props ← match unsquish with
-    | none => pure props
-    | some u => u.foldlM (fun acc nr => unsquishOne acc nr.1 nr.2) props
-  writeLoop props
+    Res (List PropMeta × List (Stored κ) × List (String × PropData κ)) :=
+  unsquishAll props unsquish >>= writeLoop
 
 /-! ## `write_arrays` (fresh store; ids of a matching integer dtype) -/
 
@@ -418,8 +426,8 @@ def accepted (nNodes nEdges : Nat) (w : Written κ) : Bool :=
 raised when validation refuses it -/
 def writeArraysValidated (md : Meta κ) (nNodes nEdges : Nat)
     (nodeProps edgeProps : Option (List (String × PropData κ)))
-    (nodeUnsquish edgeUnsquish : Option (List (String × List String))) : Res (Written κ) := do
-  let w ← writeArrays md nNodes nodeProps edgeProps nodeUnsquish edgeUnsquish
+    (nodeUnsquish edgeUnsquish : Option (List (String × List String))) : Res (Written κ) :=
+  writeArrays md nNodes nodeProps edgeProps nodeUnsquish edgeUnsquish >>= fun w =>
   if accepted nNodes nEdges w then pure w else .error .valueError
 
 /-! ## the other entry points -/
@@ -433,11 +441,11 @@ def writeDicts (md : Meta κ) (nNodes nEdges : Nat) (nodeProps edgeProps : List 
 /-- `NxBackend.write` and `RxBackend.write` (the same metadata code): directedness from the graph
 class, `axis_*` lists override every axis when `axis_names` is given and are ignored otherwise -/
 def nxWrite (version : String) (md : Option (Meta κ)) (isDirected : Bool) (ls : AxisLists)
-    (nNodes nEdges : Nat) (nodeProps edgeProps : List (String × PropData κ)) : Res (Written κ) := do
-  let m ← createOrUpdateMetadata version md isDirected none
-  let m ← match ls.names with
+    (nNodes nEdges : Nat) (nodeProps edgeProps : List (String × PropData κ)) : Res (Written κ) :=
+  createOrUpdateMetadata version md isDirected none >>= fun m =>
+  (match ls.names with
     | some _ => updateMetadataAxes m ls
-    | none => pure m
+    | none => .ok m) >>= fun m =>
   writeDicts m nNodes nEdges nodeProps edgeProps
 
 /-- the axis lists `SgBackend.write` ends up using (D20 repair): names from the metadata when
@@ -458,12 +466,12 @@ def sgLists (md : Option (Meta κ)) (ls : AxisLists) (nNodes : Nat) : Res AxisLi
 position un-squished into the axis names -/
 def sgWrite (version : String) (md : Option (Meta κ)) (isDirected : Bool) (ls : AxisLists)
     (ndims nNodes nEdges : Nat) (roiMin roiMax : List κ) (positionAttr : String)
-    (nodeProps edgeProps : List (String × PropData κ)) : Res (Written κ) := do
-  let ls' ← sgLists md ls nNodes
-  let axes ← axesFromLists ls' (some (roiMin.map some)) (some (roiMax.map some))
-  let m ← createOrUpdateMetadata version md isDirected (some axes)
+    (nodeProps edgeProps : List (String × PropData κ)) : Res (Written κ) :=
+  sgLists md ls nNodes >>= fun ls' =>
+  axesFromLists ls' (some (roiMin.map some)) (some (roiMax.map some)) >>= fun axes =>
+  createOrUpdateMetadata version md isDirected (some axes) >>= fun m =>
   if ndims ≠ axes.length ∧ nNodes ≠ 0 then .error .valueError
-  writeArraysValidated m nNodes nEdges (some nodeProps) (some edgeProps)
+  else writeArraysValidated m nNodes nEdges (some nodeProps) (some edgeProps)
     (some [(positionAttr, ls'.names.getD [])]) none
 
 end Geff.MetaW
